@@ -18,6 +18,9 @@ from .values import (Arr, BoundMethod, Builtin, ClassRef, FuncRef, LambdaVal, Li
                      SymDict, Unsupported, fresh_name, is_scalar, is_sym_bool, is_z3, kind_of, to_z3)
 
 
+NORESULT = object()   # eval_clause: do not bind the name `result` (invariants / ghost asserts may mention a local called result)
+
+
 class PathEnd(Exception):
     """this path is complete (loop body finished, infeasible, or budget)"""
 
@@ -250,7 +253,8 @@ class Exec:
     def eval_clause(self, clause, env, result, extra=None):
         node = ast.parse(clause.strip(), mode="eval").body
         cenv = dict(env)
-        cenv["result"] = result
+        if result is not NORESULT:
+            cenv["result"] = result
         if extra:
             cenv.update(extra)
         self._spec_depth = getattr(self, "_spec_depth", 0) + 1
@@ -289,7 +293,7 @@ class Exec:
         cenv = dict(env)
         cenv.update(self.st.ghostvars)
         if kind == "assert":
-            g = self.eval_clause(body, cenv, None)
+            g = self.eval_clause(body, cenv, NORESULT)
             self.oblige("ghost_assert", g, body, node)
             self.assume(g)
         elif kind == "let":
@@ -638,7 +642,7 @@ class Exec:
         cenv = dict(env)
         cenv.update(self.st.ghostvars)
         for i, cl in enumerate(spec.invariants):
-            g = self.eval_clause(cl, cenv, None)
+            g = self.eval_clause(cl, cenv, NORESULT)
             self.oblige(f"loop{ordinal}_inv_{phase}", g, cl, node, tag=str(i))
         if self.ctx.options.get("canary") and phase == "preserved":
             self.oblige(f"loop{ordinal}_canary", False, "False (loop body reachability canary)", node)
@@ -647,7 +651,7 @@ class Exec:
         cenv = dict(env)
         cenv.update(self.st.ghostvars)
         for cl in spec.invariants:
-            self.assume(self.eval_clause(cl, cenv, None))
+            self.assume(self.eval_clause(cl, cenv, NORESULT))
 
     def _havoc(self, body, env, fr, spec):
         names = set(spec.modifies) if spec.modifies is not None else modified_names(body)
@@ -1597,7 +1601,10 @@ class Exec:
         if k is None:
             raise Unsupported(f"store of {type(v).__name__} into array")
         if a.kind == "int" and k == "real":
-            raise Unsupported("store of a real into an integer array (truncation not modelled)")
+            # numpy silently truncates a float stored into an integer array: always an obligation (named, decided statically)
+            self.oblige("dtype_truncation", False, "a real (float) value is stored into an integer array: numpy truncates it silently "
+                        f"({ast.unparse(node)[:70]})", node, static=False, backend="ghost-static")
+            return z3.ToInt(to_z3(v, "real"))
         return to_z3(v, a.kind)
 
     def store_attr(self, base, attr, v, node, env, fr):
@@ -1763,6 +1770,25 @@ class Exec:
         self.ctx.trust_callee.add(info.qualname)
         cenv = dict(bound)
         old = V.clone(bound, {})
+        # size symbols of the callee's contract: bound to the shapes of the actual array arguments, otherwise fresh
+        csizes = {}
+        for pname, spec in c.params.items():
+            if not isinstance(spec, str) or pname not in bound or not isinstance(bound[pname], Arr):
+                continue
+            try:
+                node = ast.parse(spec.strip(), mode="eval").body
+            except SyntaxError:
+                continue
+            if isinstance(node, ast.Call) and getattr(node.func, "id", None) == "arr":
+                for d, dn in enumerate(node.args[1:]):
+                    if isinstance(dn, ast.Name) and dn.id in c.sizes and dn.id not in csizes and d < bound[pname].rank:
+                        csizes[dn.id] = bound[pname].shape[d]
+        for sname in c.sizes:
+            if sname not in csizes:
+                csizes[sname] = z3.Int(fresh_name(sname))
+                self.assume(csizes[sname] >= 0)
+        for k_, v_ in csizes.items():
+            cenv.setdefault(k_, v_)
         # ghost parameters of the callee are existentially supplied by the caller's ghost state: not supported -> treat as
         # universally fresh is unsound; so callee contracts with ghost params may only be *assumed* when caller passes them.
         for i, cl in enumerate(c.requires):
@@ -1780,6 +1806,15 @@ class Exec:
                 bound[m] = self.havoc_value(bound[m], m, True)
         result = self.make_result(c, cenv, info)
         cenv2 = dict(bound)
+        for k_, v_ in csizes.items():
+            cenv2.setdefault(k_, v_)
+        if c.ghost_returns:
+            from .typespec import make_value
+            for gname, gspec in c.ghost_returns.items():
+                self.st.ghostvars[gname] = make_value(self, gspec, gname, {**self.ctx.sizes, **cenv})
+            for k_, v_ in csizes.items():
+                self.st.ghostvars.setdefault(k_, v_)   # the callee's size witnesses (e.g. number of partitions) stay nameable
+            cenv2.update(self.st.ghostvars)
         saved_old = self.st.old
         self.st.old = old
         try:
